@@ -53,6 +53,21 @@ def run(ctx, rep):
     provenance_rule(f, P, rep, one)
     fallback_rule(f, P, rep)
     adjacency_rule(f, P, rep, one)
+    # C11.9: the decision to release a cluster and the clearing of its entry are one step under the slice write guard
+    from ..critsec import check_then_act
+    rep.rule('C11.9', 'the discard routines decide on the L2 entry read through the slice write guard they mutate under (decision and '
+                      'clearing are one atomic step)')
+    ncta = 0
+    for (fn, where, mname, ok, why) in check_then_act(f, P):
+        if 'discard' not in fn.lower():
+            continue
+        ncta += 1
+        rep.ob('C11.9', '%s: %s at %s' % (fn, mname, where), ok, why)
+        if not ok:
+            rep.violation('C11.9', 'C11.9:%s:%s' % (fn, mname), where,
+                          '%s performs %s under the L2 slice write guard on a decision taken before that guard was acquired: two '
+                          'overlapping discards both see the old entry and release its host cluster twice (%s)' % (fn, mname, why))
+    rep.floor('guarded mutations in the discard routines', ncta, 1)
 
 
 def body_of(f, suffix):
